@@ -183,6 +183,16 @@ class Result:
                 'wall_s': round(self.wall_s, 2), 'ok': self.ok, 'violated': self.violated}
 
 
+def _die_with_parent():
+    # a TLC whose harness process was killed must not keep running (PR_SET_PDEATHSIG = 1)
+    try:
+        import ctypes
+        import signal
+        ctypes.CDLL('libc.so.6', use_errno=True).prctl(1, signal.SIGKILL)
+    except Exception:
+        pass
+
+
 def scratch_dir(prefix='verif-'):
     base = os.environ.get('VERIF_SCRATCH') or tempfile.gettempdir()
     return tempfile.mkdtemp(prefix=prefix, dir=base)
@@ -196,7 +206,7 @@ def run(spec, cfg, workers=None, timeout=1200, simulate=None, depth=None, seed=N
     cwd = cwd or SPEC_DIR
     meta = scratch_dir('tlcmeta-')
     w = str(workers or os.cpu_count() or 4)
-    cmd = ['java', '-XX:+UseParallelGC', '-Xmx' + heap]
+    cmd = ['java', '-XX:+UseParallelGC', '-Xmx' + heap, '-Djava.io.tmpdir=' + meta]
     if dfs:
         cmd.append('-Dtlc2.tool.queue.IStateQueue=StateDeque')
     cmd += list(jvm)
@@ -225,7 +235,7 @@ def run(spec, cfg, workers=None, timeout=1200, simulate=None, depth=None, seed=N
     t0 = time.time()
     try:
         p = subprocess.run(cmd, cwd=cwd, env=e, stdout=subprocess.PIPE, stderr=subprocess.STDOUT,
-                           timeout=timeout, text=True, errors='replace')
+                           timeout=timeout, text=True, errors='replace', preexec_fn=_die_with_parent)
     except subprocess.TimeoutExpired as ex:
         out = ex.stdout or ''
         if isinstance(out, bytes):
